@@ -40,6 +40,7 @@ var (
 	CfgShared3 = &seqx.Config{Name: "shared3", Writers: []int{0, 1, 0}, PC: 4}
 	CfgSharedH = &seqx.Config{Name: "sharedhash3", Writers: []int{0, 1, 0}, PC: 4, HashTie: true}
 	CfgDef2    = &seqx.Config{Name: "def2", Writers: []int{0, 1}, PC: 4}
+	CfgSetID3  = &seqx.Config{Name: "setid3", Writers: []int{0, 1, 2}, PC: 4}
 	CfgPart2   = &seqx.Config{Name: "partial2", Writers: []int{0, 1}, PC: 4}
 	// replica 1 starts a thousand ticks ahead (clock gaps), replica 2 beyond 2^53 at a value no float64 holds exactly
 	// (wall-clock nanoseconds are of that size): clock arithmetic must be integer arithmetic
@@ -68,7 +69,7 @@ var (
 var Configs = map[string]*seqx.Config{}
 
 func init() {
-	for _, c := range []*seqx.Config{CfgDef3, CfgHash3, CfgShared3, CfgSharedH, CfgDef2, CfgClk3, CfgFww3, CfgMixSort, CfgMixIO, cfgMany8, CfgGap3, CfgPart2} {
+	for _, c := range []*seqx.Config{CfgDef3, CfgHash3, CfgShared3, CfgSharedH, CfgDef2, CfgClk3, CfgFww3, CfgMixSort, CfgMixIO, cfgMany8, CfgGap3, CfgPart2, CfgSetID3} {
 		Configs[c.Name] = c
 	}
 }
